@@ -173,11 +173,11 @@ class ProductState:
                 # Constructing the einsum str
                 einsum = ESC.measure_vector(remaining_states, [state])
 
-                # Project the state with einsum string
-                projected_state = jnp.einsum(einsum, ps)
+                # Sum the populations (not the amplitudes) over the other states
+                projected_state = jnp.einsum(einsum, jnp.abs(ps) ** 2)
 
                 # Outcome Probabilities
-                probabilities = jnp.abs(projected_state.flatten()) ** 2
+                probabilities = projected_state.flatten()
                 probabilities /= jnp.sum(probabilities)
 
                 # Decide on output
@@ -224,8 +224,8 @@ class ProductState:
             shape = [so.dimensions for so in self.state_objs] * 2
             ps = self.state.reshape(shape)
             for idx, state in enumerate(states):
-                # Generate einsum string
-                einsum = ESC.measure_matrix(remaining_states, [state])
+                # Generate einsum string, which traces out the other states
+                einsum = ESC.trace_out_matrix(remaining_states, [state])
 
                 # Project the state with einsum
                 projected_state = jnp.einsum(einsum, ps)
